@@ -1557,3 +1557,252 @@ def orc_c20(case, obs):
 
 
 prop("C20", ["c20_roundtrip", "c20_same_as_encap", "c20_same_as_encap_frag"], ["UTL"], no_cases, [orc_c20])
+
+
+# ------------------------------------------------------------------------------------------------
+# C13 extension chains
+# ------------------------------------------------------------------------------------------------
+def c13_nf_size(i):
+    return i % 9            # data bytes of the non-final mandatory extension with id i (0x01..0x7f): 0..8
+
+
+def c13_fin_size(i):
+    return i % 5            # data bytes of the final mandatory extension with id i (0x00, 0x80..0xff)
+
+
+def c13_chain(rng, pt):
+    n = rng.range(1, 4)
+    ch = []
+    for k in range(n):
+        if k == n - 1 and pt < 0x100:
+            ch.append((pt, rng.bytes(c13_fin_size(pt))))
+        elif rng.chance(0.6):
+            h = rng.range(1, 5)
+            ch.append(((h << 8) | rng.choice([0, 1, 0x33, 0xAB, 0xFF]), rng.bytes(2 * (h - 1))))
+        else:
+            i = rng.range(1, 0x7F)
+            ch.append((i, rng.bytes(c13_nf_size(i))))
+    return ch
+
+
+def c13_mgr_tok(chain, pt, drop=None, extra=()):
+    ent = {}
+    for k, (i, d) in enumerate(chain):
+        if i < 0x100:
+            ent[i] = ("F" if (k == len(chain) - 1 and pt < 0x100) else "N", len(d))
+    for i in extra:
+        ent.setdefault(i, ("N", 1))
+    if drop is not None:
+        ent.pop(drop, None)
+    if not ent:
+        return "simple"
+    return "tab:" + ";".join("%04x=%s%d" % (i, k, n) for i, (k, n) in sorted(ent.items()))
+
+
+def gen_c13(rng, t):
+    out = []
+    for i in range(1400 * t):
+        c = Case("c13_%d" % i)
+        lab = rng.choice(LABELS)
+        ll = lab_len(lab)
+        r = rng.below(20)
+        if r < 9:
+            pt = rng.choice([0x0600, 0x0601, 0x0800, 0x86DD, 0xFFFF])
+        elif r < 17:
+            pt = rng.choice([0x00, 0x80, 0x81, 0x82, 0xC3, 0xFE, 0xFF, rng.range(0x80, 0xFF)])
+        else:
+            pt = rng.choice([0x0100, 0x0101, 0x0300, 0x05FF])                  # cannot be written after a chain
+        ch = c13_chain(rng, pt)
+        if pt < 0x100 and rng.chance(0.08):
+            ch[-1] = (rng.choice([pt ^ 1, 0x0200 | pt]), b"" if pt ^ 1 > 0xff else rng.bytes(c13_fin_size(pt ^ 1)))  # last id differs
+            if ch[-1][0] >= 0x100:
+                ch[-1] = (ch[-1][0], rng.bytes(2))
+        mand = [e[0] for e in ch if e[0] < 0x100]
+        m = rng.below(10)
+        if m < 6:
+            mgr = c13_mgr_tok(ch, pt, extra=rng.choice([(), (0x7E,), (0x11, 0x90)]))
+        elif m < 8 and mand:
+            mgr = c13_mgr_tok(ch, pt, drop=rng.choice(mand))
+        elif m < 9:
+            mgr = "simple"
+        else:
+            mgr = "signal" if pt in (0x81, 0x82) and len(mand) == 1 and not ch[-1][1] else c13_mgr_tok(ch, pt)
+        tle = sum(2 + len(d) for _, d in ch) - (2 if pt < 0x100 else 0)
+        big = (i % 25 == 0)
+        if big:
+            pl = rng.choice([near(rng, 4089 - ll - tle, 4093 - ll - tle, lo=0, spread=3), rng.range(4000, 9000)])
+        else:
+            pl = rng.choice([0, 1, rng.range(0, 12), rng.range(0, 40), rng.range(0, 200)])
+        maxpdu = pl + rng.choice([0, 0, 3])
+        c.add("ENEW", "DNEW %d %d %s" % (rng.choice([1, 2, 4]), maxpdu, mgr), "DPROV %d" % (maxpdu + rng.range(0, 2)))
+        fid = rng.below(256)
+        if rng.chance(0.25) and lab != "B":
+            c.add("ENCAP - 0 2048 %s 40 1" % lab, "DECAPN -", "DPROVBACK")       # next packet re-uses the label
+        full = 4 + ll + tle + pl
+        if big:
+            bl = rng.choice([full, full - 1, 4097, 4096, 5000, 7 + ll + tle + rng.range(0, 5)])
+        else:
+            bl = rng.choice([rng.range(7 + ll + tle, full + 3), rng.range(7 + ll + tle, full + 3), rng.range(7 + ll + tle, full + 3),
+                             rng.range(0, 7 + ll + tle + 2), full, full - 1, 7 + ll + tle, 6 + ll + tle])
+        c.add("EEXT %s %d %d %s %d %d %s" % (pdu_tok(rng, pl), fid, pt, lab, max(0, bl), rng.below(99), exts_tok(ch)))
+        c.add("DECAPN -")
+        for k in range(min(pl + 2, 12) if not big else 6):
+            fb = rng.choice([13, 13, rng.range(7, 30), 4097]) if not big else rng.choice([4097, 5000, 3000])
+            c.add("EFRAGC %d %d" % (fb, rng.below(99)), "DECAPN -")
+        out.append(c)
+    # truncated chains (GSE length ends inside the extension area) and the constructor at its boundaries
+    c = Case("c13_trunc")
+    c.add("DNEW 1 64 tab:0005=N3;0081=F2")
+    for ch, pt in (([(0x0200, b"\x01\x02"), (0x0005, b"\xaa\xbb\xcc")], 0x0800), ([(0x0301, b"\x01\x02\x03\x04"), (0x0081, b"\x05\x06")], 0x81)):
+        body = b""
+        for k, (eid, d) in enumerate(ch):
+            body += d + (ch[k + 1][0].to_bytes(2, "big") if k + 1 < len(ch) else (b"" if pt < 0x100 else pt.to_bytes(2, "big")))
+        for cut in range(0, len(body) + 1):
+            pkt_c = bytes([0x80 | 0x40 | 0x20, 0]) + ch[0][0].to_bytes(2, "big") + body[:cut]      # broadcast label
+            pkt_c = bytes([pkt_c[0] | ((len(pkt_c) - 2) >> 8), (len(pkt_c) - 2) & 0xff]) + pkt_c[2:]
+            c.add("DPROV 64", "DECAP %s" % hx(pkt_c))
+            pkt_f = bytes([0x80 | 0x20, 0, 7]) + (40).to_bytes(2, "big") + ch[0][0].to_bytes(2, "big") + body[:cut]
+            pkt_f = bytes([pkt_f[0] | ((len(pkt_f) - 2) >> 8), (len(pkt_f) - 2) & 0xff]) + pkt_f[2:]
+            c.add("DECAP %s" % hx(pkt_f))
+    out.append(c)
+    c = Case("c13_new")
+    for eid in [0, 1, 0xFF, 0x100, 0x101, 0x1FF, 0x200, 0x2FF, 0x300, 0x3FF, 0x400, 0x4FF, 0x500, 0x5FE, 0x5FF, 0x600, 0x601, 0x6FF, 0x700, 0x7FF, 0x800, 0x8000, 0x8100, 0xFFFF]:
+        for dl in range(0, 11):
+            c.add("XNEW %04x %s" % (eid, hx(bytes(range(dl)))))
+    out.append(c)
+    if t > 1:
+        # thorough: all 65536 ids x data lengths 0..=10
+        for blk in range(64):
+            c = Case("c13_new_all_%d" % blk)
+            for eid in range(blk * 1024, (blk + 1) * 1024):
+                for dl in range(0, 11):
+                    c.add("XNEW %04x %s" % (eid, hx(bytes(range(dl)))))
+            out.append(c)
+    return out
+
+
+def c13_parse_exts(tok):
+    if tok == "-":
+        return []
+    res = []
+    for part in tok.split(","):
+        a, b = part.split(":")
+        res.append((int(a, 16), b"" if b == "-" else bytes.fromhex(b)))
+    return res
+
+
+def c13_parse_mgr(tok):
+    if tok == "simple":
+        return {}
+    if tok == "signal":
+        return {0x81: ("F", 0), 0x82: ("F", 0)}
+    ent = {}
+    for part in tok[4:].split(";"):
+        if part and int(part[:4], 16) not in ent:
+            ent[int(part[:4], 16)] = (part[5], int(part[6:]))
+    return ent
+
+
+def c13_receiver_view(mgr, chain, pt):
+    """'known' / 'unknown' (first not-understood thing is a mandatory id the manager lacks) / 'other'"""
+    for k, (i, d) in enumerate(chain):
+        if i >= 0x100:
+            continue
+        if i not in mgr:
+            return "unknown"
+        kind, n = mgr[i]
+        want = "F" if (k == len(chain) - 1 and pt < 0x100) else "N"
+        if kind != want or n != len(d):
+            return "other"
+    return "known"
+
+
+def orc_c13(case, obs):
+    bad = []
+    ops = case.ops
+    mgr, maxpdu, prov = None, 0, []
+    for i, op in enumerate(ops):
+        t = op.split(" ")
+        ob = obs[i] if i < len(obs) else ""
+        if ob.startswith("PANIC") and t[0] in ("XNEW", "EEXT", "DECAP", "DECAPN"):
+            bad.append("%s panics: %s" % (t[0], op[:80]))
+            continue
+        if t[0] == "DNEW":
+            mgr, maxpdu, prov = c13_parse_mgr(t[3]), int(t[2]), []
+        elif t[0] == "DPROV":
+            if ob == "ok":
+                prov.append(int(t[1]))
+        elif t[0] == "XNEW":
+            eid, data = int(t[1], 16), tok_bytes(t[2])
+            if eid >= 0x600:
+                exp = "err IncorrectExtensionId"
+            elif eid >= 0x100 and len(data) != 2 * ((eid >> 8) - 1):
+                exp = "err IdAndVecSizeNotMatching"
+            else:
+                exp = "ok %s len=%d" % (exts_obs([(eid, data)]), 2 + len(data))
+            if ob != exp:
+                bad.append("Extension::new(0x%04x, %d bytes) -> %s, expected %s" % (eid, len(data), ob[:60], exp[:60]))
+        elif t[0] == "EEXT":
+            e = EncObs(ob)
+            if not e.ok:
+                continue
+            pdu, fid, pt, lab = tok_bytes(t[1]), int(t[2]), int(t[3]), t[4]
+            chain = c13_parse_exts(t[7])
+            if not chain or not (pt >= 0x600 or (pt < 0x100 and chain[-1][0] == pt)):
+                bad.append("encap_ext answers Ok for a chain / protocol type it cannot encode decodably (ptype 0x%04x, chain %s)" % (pt, t[7][:60]))
+                continue
+            if e.n != len(e.pkt) or ((e.pkt[0] & 0x0F) << 8 | e.pkt[1]) + 2 != e.n:
+                bad.append("reported length %d, on-wire GSE length + 2 = %d" % (e.n, ((e.pkt[0] & 0x0F) << 8 | e.pkt[1]) + 2))
+            if mgr is None or i + 1 >= len(ops) or not ops[i + 1].startswith("DECAPN"):
+                continue
+            view = c13_receiver_view(mgr, chain, pt)
+            adequate = maxpdu >= len(pdu) and prov and max(prov) >= len(pdu) and "DPROVBACK" not in ops[i:] \
+                and not any(o.startswith(("DECAP ", "DRESET", "DNEWPDU")) for o in ops[:i])
+            if not adequate or view == "other":
+                continue
+            w, d = kv(obs[i + 1])
+            if view == "unknown":
+                if w[:2] != ["err", "UnkownMandatoryHeader"] or int(d.get("consumed", -1)) != e.n:
+                    bad.append("packet with a mandatory extension unknown to the receiver: %s (expected UnkownMandatoryHeader consuming %d)" % (obs[i + 1][:80], e.n))
+                continue
+            # the receiver knows every mandatory extension used
+            want_exts = exts_obs(chain)
+            done = (e.status == "C")
+            pending = e.n
+            for j in range(i + 1, len(ops)):
+                o2, b2 = ops[j], obs[j]
+                if o2.startswith("EFRAGC"):
+                    if done:
+                        break
+                    f = EncObs(b2)
+                    if f.ok:
+                        pending = f.n
+                        done = (f.status == "C")
+                    else:
+                        pending = None
+                elif o2.startswith("DECAPN"):
+                    if pending is None or b2 == "nopkt":
+                        continue
+                    w, d = kv(b2)
+                    kind = "completed" if done else "fragmented"
+                    if w[:2] != ["ok", kind]:
+                        bad.append("known chain: packet answered %s (expected %s)" % (b2[:90], kind))
+                        break
+                    if d.get("exts") != want_exts or int(d["ptype"]) != pt or d["label"] != lab:
+                        bad.append("%s status carries exts=%s ptype=%s label=%s; sent %s / %d / %s" % (kind, d.get("exts"), d["ptype"], d["label"], want_exts, pt, lab))
+                        break
+                    if int(d["consumed"]) != pending:
+                        bad.append("decap consumed %s, sender reported %d" % (d["consumed"], pending))
+                    if done and (d.get("data") != hx(pdu) or int(d["pdulen"]) != len(pdu)):
+                        bad.append("delivered PDU differs from the one sent with extensions")
+                    pending = None
+                    if done:
+                        break
+                else:
+                    break
+    return bad
+
+
+prop("C13", ["c13_encap_ext_total", "c13_complete_roundtrip", "c13_fragmented_roundtrip", "c13_encodable",
+             "c13_unknown_whole_packet", "c13_unknown_mandatory", "c13_new"], ["EXT", "ENCX", "SYS"], gen_c13, [orc_c13],
+     exhaustive="thorough tier: Extension::new on all 65536 ids x data lengths 0..=10")
